@@ -1,5 +1,5 @@
 """C20 - options and edits are isolated per call, per block and per thread."""
-from contracts import k_options, k_modifying
+from contracts import k_options, k_modifying, k_bistr, k_cache
 from pyvc.contract import verify_all
 from pyvc import native
 
@@ -7,8 +7,11 @@ from pyvc import native
 def run(rep, tier, seed):
     # the process-global modification registry is the only cross-thread mutable state besides the thread-local store:
     # its frame obligations (only the entry of the root being edited is touched) are part of the isolation argument
-    verify_all(rep, k_options.specs('C20') + k_modifying.specs('C20'))
+    # a per-node memo keyed before the thread default is resolved would carry one options() block's default into another
+    memo = [s for s in k_cache.specs('C20') if s.name == 'memo.own_lines']
+    verify_all(rep, k_options.specs('C20') + k_modifying.specs('C20') + memo)
     k_options.footprint_structural(rep, 'C20')
+    k_bistr.publication_structural(rep, 'C20')
     rep.bounded(native.run('b_options', 'main', {'tier': tier, 'seed': seed}))
     rep.remainder = ('"obtain exactly the results they would obtain alone" over thread SCHEDULES: the family has '
                      'nothing for interleavings; proved: store algebra, restore-on-exit, per-call lookup; bounded: '
